@@ -13,11 +13,14 @@ func (u *UseCase) Begin(ctx context.Context, isoLevel model.TxIsoLevel) (string,
 	verifhook.At("begin.enter")
 	id := u.idGen.Generate()
 
+	// drawing the number and registering under it is one step for the collector
+	sequence.Horizon.Lock()
 	err := u.txRepo.Store(ctx, model.Transaction{
 		Id:       id,
 		IsoLevel: isoLevel,
 		Seq:      sequence.Next(),
 	})
+	sequence.Horizon.Unlock()
 	if err != nil {
 		return "", fmt.Errorf("tx repository store: %w", err)
 	}
